@@ -151,6 +151,50 @@ NAME_CLASSES: Dict[str, str] = {
 CRLF_NAME_CLASSES = {"cr", "lf", "crlf", "crlfcrlf"}
 
 
+# structural characters of a Content-Disposition parameter value (quoted-string / RFC 5987 /
+# percent-encoding machinery) and CR/LF-free controls
+STRUCTURAL = [";", '"', "\\", "=", " ", "%", "\t", "\x01", "\x7f", "'", "*", ","]
+STRUCTURAL_CORE = STRUCTURAL[:9]
+
+
+def structural_names(rng, quick: bool, sample: int = 0) -> List[str]:
+    """Strings over the code point classes of engine/gen/strings.py crossed with the structural
+    characters: each one in every position of a short base, and every ordered pair of two of
+    them in every pair of positions.  quick: all singles + a seeded sample of the pairs."""
+    from . import strings as S
+    fillers = []
+    for cls in ("VCHAR", "LATIN1", "BMP", "ASTRAL", "SP", "HT", "COLON"):
+        fillers += [chr(cp) for cp in S.MEMBERS[cls][: (2 if quick else 4)]]
+
+    def base() -> str:
+        return "a" + rng.choice(fillers)
+
+    singles, pairs = [], []
+    for c in STRUCTURAL:
+        for i in range(3):
+            b = base()
+            singles.append(b[:i] + c + b[i:])
+    for c1 in STRUCTURAL_CORE:
+        for c2 in STRUCTURAL_CORE:
+            for i in range(3):
+                for j in range(i, 3):
+                    t = list(base())
+                    t.insert(j, c2)
+                    t.insert(i, c1)
+                    pairs.append("".join(t))
+    # three or more: the parameter splitter of the reader sees several pieces
+    extra = ["a;b;c", "a; b;c d", 'x";";"y', "a\\;\\", ";;;", "a=b;c=d;e", "%3B;%22", "q\" ;\\ z", " lead;trail ",
+             "utf-8''a;b", "a;\tb", "тест;файл я", "a;b c"]
+    if quick and sample:
+        pairs = rng.sample(pairs, min(sample, len(pairs)))
+    seen, out = set(), []
+    for x in singles + extra + pairs:
+        if x not in seen:
+            seen.add(x)
+            out.append(x)
+    return out
+
+
 # ---------------------------------------------------------------- segmentation scripts
 def find_all(hay: bytes, needle: bytes) -> List[int]:
     out = []
@@ -227,6 +271,21 @@ def mutations(body: bytes, boundary: bytes, rng) -> List[Tuple[str, bytes]]:
         out.append(("headers-eof", body[:h + 1]))
         out.append(("header-no-colon", body[:h] + b"\r\nno colon here" + body[h:]))
         out.append(("header-huge-name", body[:h] + b"\r\n" + b"h" * 300 + b": v" + body[h:]))
+    # hostile header blocks, in the header block of every part
+    hb, q = [], body.find(b"\r\n\r\n")
+    while q >= 0 and len(hb) < 3:
+        hb.append(q)
+        q = body.find(b"\r\n\r\n", q + 4)
+    for k, h in enumerate(hb):
+        ins = h + 2                      # after the CRLF of the last header line
+        out.append((f"hdr{k}-fields-200", body[:ins] + b"".join(b"X-F%d: v\r\n" % i for i in range(200)) + body[ins:]))
+        out.append((f"hdr{k}-cont-sp-300", body[:ins] + b" folded\r\n" * 300 + body[ins:]))
+        out.append((f"hdr{k}-cont-ht-2000", body[:ins] + b"\tx\r\n" * 2000 + body[ins:]))
+        out.append((f"hdr{k}-cont-mixed-1260", body[:ins] + (b" a\r\nX-Real: 1\r\n" + b"\t b\r\n" * 40) * 30 + body[ins:]))
+        out.append((f"hdr{k}-long-line", body[:ins] + b"X-Long: " + b"v" * 100000 + b"\r\n" + body[ins:]))
+        out.append((f"hdr{k}-long-cont", body[:ins] + b" " + b"v" * 100000 + b"\r\n" + body[ins:]))
+        out.append((f"hdr{k}-no-blank-line-flood", body[:h + 2] + b"".join(b"line %d\r\n" % i for i in range(3000))))
+        out.append((f"hdr{k}-lf-only-flood", body[:ins] + b"X: y\n" * 5000 + body[ins:]))
     # lying Content-Length
     cl = body.lower().find(b"content-length:")
     if cl >= 0:
